@@ -48,7 +48,11 @@ Fixpoint num_loop (s : string) (acc : N) : option N :=
   | String c r => let n := code c in
                   if (48 <=? n) && (n <=? 57) then num_loop r (acc * 10 + (n - 48)) else None
   end.
-Definition dnum (s : string) : option N := if str_empty s then None else num_loop s 0.
+(* every number on a line stands for a Uint128 (or smaller) field of a JSON message or storage slot: a numeral beyond
+   2^128-1 cannot be deserialised by the contract and makes the line malformed, as it does for the harness *)
+Definition dnum (s : string) : option N :=
+  if str_empty s then None else
+  match num_loop s 0 with Some n => if n <=? U128MAX then Some n else None | None => None end.
 
 Definition dopt {A} (f : string -> option A) (s : string) : option (option A) :=
   if String.eqb s "-" then Some None else let? v := f s in Some (Some v).
